@@ -16,7 +16,7 @@ CONFIG = {
              "inversion x attribute in {., key, key.key, *, a.*, **, /a/b, a[0]} x 9 terms, valid and invalid "
              "regexes) in dot and slash notation, collector expressions, sampled/exhaustive 2-segment paths, random "
              "paths of up to 5 segments; each under get_nodes(mustexist=True), get_nodes(mustexist=False) and "
-             "exists().  Keyword-search segments (evalcommon.gen_kw_cases): 55 spellings of [has_child(..)] incl. "
+             "exists().  Keyword-search segments (evalcommon.gen_kw_cases): 58 spellings of [has_child(..)] incl. "
              "&anchor and the empty key, [name()], [max(..)], [min(..)], [parent(n)] for n in -1..9 / non-integer / "
              "padded, [unique(..)], [distinct(..)], inverted forms, surplus parameters -- alone (dot and slash), after "
              "28 prefixes (keys, indexes, wildcards, **, slices incl. the [n:n] form, searches, [&anchor], collector "
@@ -45,8 +45,8 @@ CONFIG = {
         "the model is the code only as far as the correspondence run shows",
         "C15_* theorems assume the oracles answer (lit / re_search never fail, literal_eval raises only the "
         "exceptions typed_value catches) and are stated for paths whose sub-paths were prepared by Eval.prepare",
-        "C15_*_kw: keyword parameter texts split (kw_params_ok; the parser refuses unbalanced quotes before the "
-        "evaluator sees them -- a parser property, part of the fragment); C15_*_partial: the guard kc_fragment "
+        "C15_*_kw: nothing is asked of keyword parameter texts (one that does not split is a YAMLPathException "
+        "since the repair of F31); C15_*_partial: the guard kc_fragment "
         "(collector expression first, every operand evaluated on the document yields scalars)",
     ],
 }
@@ -103,41 +103,9 @@ def nontrivial(case, obs):
 # each other, a collector opened inside a [...] segment: '[(a)]', '(][max(())]', '[max()\\])') ended in
 # NotImplementedError; both are repaired in the parser.  Their witnesses stay in the corpus below and a stream of
 # tangled texts is part of every run (tangle_cases).
-def unsplittable_keyword_parameters(path, depth=0):
-    """the path (or a collector expression / search attribute inside it) parses to a keyword segment whose
-    parameter text SearchKeywordTerms.parameters cannot split (unbalanced quotes: ValueError)"""
-    E = ec._ENV
-    if depth > 6:
-        return False
-    try:
-        segs = list(E["YAMLPath"](path)._parse_path(True))
-    except Exception:  # noqa
-        return False
-    for (_t, a) in segs:
-        if isinstance(a, E["SearchKeywordTerms"]):
-            try:
-                E["SearchKeywordTerms"](a.inverted, a.keyword, a._parameters).parameters
-            except ValueError:
-                return True
-            except Exception:  # noqa
-                pass
-        if isinstance(a, E["CollectorTerms"]) and unsplittable_keyword_parameters(a.expression, depth + 1):
-            return True
-        if isinstance(a, E["SearchTerms"]) and unsplittable_keyword_parameters(a.attribute, depth + 1):
-            return True
-    return False
-
-
-def f31_keyword_parameters(case, obs):
-    """F31: every crash of the case is the ValueError of SearchKeywordTerms.parameters on a parameter text with
-    unbalanced quotes that the parser let through ('[max(\\')]': the escaped parse strips the back-slash and the
-    stored text is a lone quote)"""
-    vs = list(violations(case, obs))
-    return bool(vs) and all(line == "(raise (crash ValueError))" and unsplittable_keyword_parameters(path)
-                            for path, _mode, line in vs)
-
-
-FINDING_PREDS = {"keyword_parameters_unbalanced": f31_keyword_parameters}
+# finding F31 ('[max(\\')]': an escaped quote reaches SearchKeywordTerms.parameters unbalanced; ValueError) is
+# repaired in KeywordSearches.search_matches; its witnesses stay in the corpus and in evalcommon.KW_SEGS.
+FINDING_PREDS = {}
 
 TANGLE_TOKENS = ["(", ")", "[", "]", "'", "\\", "a", "b", "=", "max", "&", ".", "~", "/", "+", "!", "0", ":", "*"]
 
@@ -161,7 +129,10 @@ def corpus_chunks():
     yield [("{a: 1, b: 2}", ["(a)b", "(a)'b'", "a.(b)c"]), ("{a: 1, b: 2}", ["[(a)]", "(][max(())]", "a[(b)]"]),
            ("{a: 1, b: 2}", ["[a=(b)]", "[a='(b)']", "[a='(b)'=c]", "[a=[b(c)]=d]", "[a=[(c)]=d]", "[max()\\])", "[max(])",
                              "[()]", "[[(a)]]", "'a(b)'", "'[(a)]'", "(a[(b)])", "[max('a)]]"]),
-           ("{a: 1, b: 2}", ["[max(\\')]", "[has_child(\\\")]", "[!min(a\\')]"]),      # F31 (known)
+           ("{a: 1, b: 2}", ["[max(\\')]", "[has_child(\\\")]", "[!min(a\\')]"]),      # F31 (repaired)
+           # a missing key followed by a segment nothing can be built for (F-C11-5, repaired: refused, no mutation)
+           ("{a: 1, b: 2}", ["x.*", "x.**", "x[.=1]", "x[max()]", "x[0:2]", "x[&q]", "x(a)+(b)", "x[-1]", "x.y[0].*", "/x/y/*"]),
+           ("{a: null, l: [1]}", ["a[0:1]", "a[-1]", "a.b.*", "l[3].*", "l[1][.=1]", "a.*", "a[.=1]"]),
            # keyword segments: the repaired defects and the seeded one
            ("x: {a: 1}", ["x[has_child(,)]", "x[!has_child(,)]"]), ("x: [[{a: 1}]]", ["x[0:1][0:1][0][max(a)]"]),
            ("x: {a: 1, b: 2}", ["x.*[parent()]", "x.**[parent()]", "x.*[parent(2)]"]),
